@@ -4,4 +4,242 @@
 import BumpverVerif.Model.Vcs
 namespace BV
 
+/-! ### `fmtGo` / `pyFormat` -/
+
+theorem wordChar_ne_rbrace {c : Char} (h : (isAlnum c || c == '_') = true) : c ≠ '}' := by
+  rintro rfl; revert h; decide
+
+theorem wordChar_ne_lbrace {c : Char} (h : (isAlnum c || c == '_') = true) : c ≠ '{' := by
+  rintro rfl; revert h; decide
+
+theorem simpleName_all {k : Str} (h : simpleName k = true) :
+    ∀ c ∈ k, (isAlnum c || c == '_') = true := by
+  simp only [simpleName, Bool.and_eq_true, List.all_eq_true] at h
+  exact h.1.2
+
+theorem simpleName_ne_nil {k : Str} (h : simpleName k = true) : k ≠ [] := by
+  rintro rfl; revert h; decide
+
+theorem Except_map_eq_ok {ε α β} {f : α → β} {x : Except ε α} {b : β}
+    (h : x.map f = .ok b) : ∃ a, x = .ok a ∧ f a = b := by
+  cases x with
+  | error e => simp [Except.map] at h
+  | ok a => exact ⟨a, rfl, by simpa [Except.map] using h⟩
+
+theorem fmtGo_text_plain (kw : List (Str × Str)) {c : Char} (r : Str)
+    (h1 : c ≠ '{') (h2 : c ≠ '}') :
+    fmtGo kw .text (c :: r) = (fmtGo kw .text r).map (c :: ·) := by
+  simp [fmtGo, h1, h2]
+
+theorem fmtGo_text_lbrace2 (kw : List (Str × Str)) (r : Str) :
+    fmtGo kw .text ('{' :: '{' :: r) = (fmtGo kw .text r).map ('{' :: ·) := by
+  simp [fmtGo]
+
+theorem fmtGo_text_rbrace2 (kw : List (Str × Str)) (r : Str) :
+    fmtGo kw .text ('}' :: '}' :: r) = (fmtGo kw .text r).map ('}' :: ·) := by
+  simp [fmtGo]
+
+theorem fmtGo_field_run (kw : List (Str × Str)) (k : Str) (hk : ∀ c ∈ k, c ≠ '}') :
+    ∀ (acc r : Str), fmtGo kw (.field acc) (k ++ '}' :: r)
+      = fmtGo kw (.field (k.reverse ++ acc)) ('}' :: r) := by
+  induction k with
+  | nil => intro acc r; rfl
+  | cons c k ih =>
+    intro acc r
+    have hc : c ≠ '}' := hk c (by simp)
+    have := ih (fun d hd => hk d (by simp [hd])) (c :: acc) r
+    simp only [List.cons_append, fmtGo, beq_iff_eq, hc, if_false] at this ⊢
+    simpa using this
+
+/-- a lone `{k}` slot followed by `r` -/
+theorem fmtGo_slot (kw : List (Str × Str)) {k v : Str} (r : Str)
+    (hs : simpleName k = true) (hl : lookup k kw = some v) :
+    fmtGo kw .text ('{' :: k ++ '}' :: r) = (fmtGo kw .text r).map (v ++ ·) := by
+  have hall := simpleName_all hs
+  cases k with
+  | nil => exact absurd rfl (simpleName_ne_nil hs)
+  | cons c k =>
+    have hc1 : c ≠ '{' := wordChar_ne_lbrace (hall c (by simp))
+    have hc2 : c ≠ '}' := wordChar_ne_rbrace (hall c (by simp))
+    have hrun := fmtGo_field_run kw k
+      (fun d hd => wordChar_ne_rbrace (hall d (by simp [hd]))) [c] r
+    simp only [List.cons_append, fmtGo, beq_self_eq_true, if_true, beq_iff_eq, hc1, hc2, if_false]
+    rw [hrun]
+    simp [fmtGo, hs, hl]
+
+/-- whole token `{k}` -/
+theorem pyFormat_slot (kw : List (Str × Str)) {k v : Str}
+    (hs : simpleName k = true) (hl : lookup k kw = some v) :
+    pyFormat kw ('{' :: k ++ ['}']) = .ok v := by
+  have := fmtGo_slot kw [] hs hl
+  simpa [pyFormat, fmtGo, Except.map] using this
+
+/-- a template that formats without any keyword formats identically under every `kw` -/
+theorem fmtGo_static (kw : List (Str × Str)) (s : Str) :
+    ∀ (st : FState) (r : Str), fmtGo [] st s = .ok r → fmtGo kw st s = .ok r := by
+  induction s with
+  | nil => intro st r h; cases st <;> simp_all [fmtGo]
+  | cons c s ih =>
+    intro st r h
+    cases st with
+    | text =>
+      simp only [fmtGo] at h ⊢
+      split at h
+      · rename_i h1; simp only [h1, if_true]; exact ih _ _ h
+      · split at h
+        · rename_i h1 h2; simp only [h1, h2, if_true]; exact ih _ _ h
+        · rename_i h1 h2
+          simp only [h1, h2]
+          obtain ⟨a, ha, rfl⟩ := Except_map_eq_ok h
+          rw [ih _ _ ha]; rfl
+    | open_ =>
+      simp only [fmtGo] at h ⊢
+      split at h
+      · rename_i h1; simp only [h1, if_true]
+        obtain ⟨a, ha, rfl⟩ := Except_map_eq_ok h
+        rw [ih _ _ ha]; rfl
+      · split at h
+        · cases h
+        · rename_i h1 h2; simp only [h1, h2]; exact ih _ _ h
+    | close_ =>
+      simp only [fmtGo] at h ⊢
+      split at h
+      · rename_i h1; simp only [h1, if_true]
+        obtain ⟨a, ha, rfl⟩ := Except_map_eq_ok h
+        rw [ih _ _ ha]; rfl
+      · cases h
+    | field acc =>
+      simp only [fmtGo] at h ⊢
+      split at h
+      · split at h
+        · cases h
+        · simp [lookup] at h
+      · rename_i h1; simp only [h1]; exact ih _ _ h
+
+theorem pyFormat_static (kw : List (Str × Str)) {tok r : Str}
+    (h : pyFormat [] tok = .ok r) : pyFormat kw tok = .ok r :=
+  fmtGo_static kw tok .text r h
+
+/-! ### `strip`, `splitFirstWs`, `statusParse` -/
+
+theorem isPySpace_blank : isPySpace ' ' = true := by decide
+
+theorem rstrip_append_nospace (pre path : Str) (hne : path ≠ [])
+    (hp : ∀ c ∈ path, isPySpace c = false) :
+    ((pre ++ path).reverse.dropWhile isPySpace).reverse = pre ++ path := by
+  have hl : isPySpace (path.getLast hne) = false := hp _ (List.getLast_mem hne)
+  rw [← List.dropLast_concat_getLast hne]
+  simp [hl]
+
+theorem dropWhile_nospace (path : Str) (hne : path ≠ [])
+    (hp : ∀ c ∈ path, isPySpace c = false) : path.dropWhile isPySpace = path := by
+  cases path with
+  | nil => exact absurd rfl hne
+  | cons c p => simp [hp c (by simp)]
+
+theorem strip_nospace (path : Str) (hne : path ≠ [])
+    (hp : ∀ c ∈ path, isPySpace c = false) : strip path = path := by
+  have := rstrip_append_nospace [] path hne hp
+  simp only [List.nil_append] at this
+  simp only [strip, dropWhile_nospace path hne hp, this]
+
+theorem statusParse_cons_of (files : List Str) {line l st path p : Str} (rest : List Str)
+    (h1 : strip line = l) (h2 : l ≠ []) (h3 : splitFirstWs l = some (st, path))
+    (h4 : strip path = p) :
+    statusParse files (line :: rest) = (statusParse files rest).map (fun ps =>
+        if files.contains p || st != "??".toList then p :: ps else ps) := by
+  have h2' : l.isEmpty = false := by cases l <;> simp_all
+  simp only [statusParse, h1, h2', h3, h4]
+  simp
+
+theorem statusParse_porcelain (files : List Str) (x y : Char) (path : Str) (rest : List Str)
+    (hx : x = ' ' ∨ isPySpace x = false) (hy : y = ' ' ∨ isPySpace y = false)
+    (hxy : ¬ (x = ' ' ∧ y = ' '))
+    (hne : path ≠ []) (hp : ∀ c ∈ path, isPySpace c = false) :
+    statusParse files ((x :: y :: ' ' :: path) :: rest) =
+      (statusParse files rest).map (fun ps =>
+        if files.contains path || !(x == '?' && y == '?') then path :: ps else ps) := by
+  have hsp := strip_nospace path hne hp
+  have hdw := dropWhile_nospace path hne hp
+  have hemp : path.isEmpty = false := by cases path <;> simp_all
+  rcases hx with rfl | hx
+  · rcases hy with rfl | hy
+    · exact absurd ⟨rfl, rfl⟩ hxy
+    · have h1 : strip (' ' :: y :: ' ' :: path) = y :: ' ' :: path := by
+        have := rstrip_append_nospace [y, ' '] path hne hp
+        simp only [strip, List.dropWhile_cons, isPySpace_blank, hy, if_true]
+        simpa using this
+      have h3 : splitFirstWs (y :: ' ' :: path) = some ([y], path) := by
+        simp [splitFirstWs, isPySpace_blank, hy, hdw, hemp]
+      rw [statusParse_cons_of files rest h1 (by simp) h3 hsp]
+      simp
+  · have hxb : x ≠ ' ' := by rintro rfl; simp [isPySpace_blank] at hx
+    rcases hy with rfl | hy
+    · have h1 : strip (x :: ' ' :: ' ' :: path) = x :: ' ' :: ' ' :: path := by
+        have := rstrip_append_nospace [x, ' ', ' '] path hne hp
+        simp only [strip, List.dropWhile_cons, hx]
+        simpa using this
+      have h3 : splitFirstWs (x :: ' ' :: ' ' :: path) = some ([x], path) := by
+        simp [splitFirstWs, isPySpace_blank, hx, hdw, hemp]
+      rw [statusParse_cons_of files rest h1 (by simp) h3 hsp]
+      simp
+    · have h1 : strip (x :: y :: ' ' :: path) = x :: y :: ' ' :: path := by
+        have := rstrip_append_nospace [x, y, ' '] path hne hp
+        simp only [strip, List.dropWhile_cons, hx]
+        simpa using this
+      have h3 : splitFirstWs (x :: y :: ' ' :: path) = some ([x, y], path) := by
+        simp [splitFirstWs, isPySpace_blank, hx, hy, hdw, hemp]
+      rw [statusParse_cons_of files rest h1 (by simp) h3 hsp]
+      have : ([x, y] != "??".toList) = !(x == '?' && y == '?') := by
+        simp [bne, BEq.beq, List.beq]
+      rw [this]
+
+/-- all lines of a porcelain listing at once -/
+theorem statusParse_porcelain_map {α} (files : List Str) (x y : α → Char) (path : α → Str)
+    (ls : List α)
+    (h : ∀ l ∈ ls, (x l = ' ' ∨ isPySpace (x l) = false) ∧ (y l = ' ' ∨ isPySpace (y l) = false)
+      ∧ ¬ (x l = ' ' ∧ y l = ' ') ∧ path l ≠ [] ∧ ∀ c ∈ path l, isPySpace c = false) :
+    statusParse files (ls.map (fun l => x l :: y l :: ' ' :: path l)) =
+      some (ls.filterMap (fun l =>
+        if files.contains (path l) || !(x l == '?' && y l == '?') then some (path l) else none)) := by
+  induction ls with
+  | nil => rfl
+  | cons l ls ih =>
+    obtain ⟨h1, h2, h3, h4, h5⟩ := h l (by simp)
+    rw [List.map_cons, statusParse_porcelain files _ _ _ _ h1 h2 h3 h4 h5,
+      ih (fun l' hl' => h l' (by simp [hl']))]
+    simp only [Option.map_some, List.filterMap_cons]
+    split <;> rfl
+
+theorem filterMap_ite_isEmpty {α β} (p : α → Bool) (f : α → β) (ls : List α) :
+    (ls.filterMap (fun l => if p l then some (f l) else none)).isEmpty = !ls.any p := by
+  induction ls with
+  | nil => rfl
+  | cons l ls ih => cases hp : p l <;> simp [hp, ih]
+
+theorem filterMap_ite_any {α β} (p : α → Bool) (f : α → β) (q : β → Bool) (ls : List α) :
+    (ls.filterMap (fun l => if p l then some (f l) else none)).any q
+      = ls.any (fun l => p l && q (f l)) := by
+  induction ls with
+  | nil => rfl
+  | cons l ls ih => cases hp : p l <;> simp [hp, ih]
+
+theorem assertNotDirty_porcelain {α} (files : List Str) (x y : α → Char) (path : α → Str)
+    (ls : List α) (allowDirty : Bool)
+    (h : ∀ l ∈ ls, (x l = ' ' ∨ isPySpace (x l) = false) ∧ (y l = ' ' ∨ isPySpace (y l) = false)
+      ∧ ¬ (x l = ' ' ∧ y l = ' ') ∧ path l ≠ [] ∧ ∀ c ∈ path l, isPySpace c = false) :
+    assertNotDirty (ls.map (fun l => x l :: y l :: ' ' :: path l)) files allowDirty =
+      if (!allowDirty && ls.any (fun l => files.contains (path l) || !(x l == '?' && y l == '?')))
+          || ls.any (fun l => files.contains (path l))
+      then .abort else .proceed := by
+  simp only [assertNotDirty, statusParse_porcelain_map files x y path ls h]
+  rw [filterMap_ite_isEmpty (fun l => files.contains (path l) || !(x l == '?' && y l == '?')) path,
+    filterMap_ite_any (fun l => files.contains (path l) || !(x l == '?' && y l == '?')) path]
+  have e : (ls.any fun l => (files.contains (path l) || !(x l == '?' && y l == '?')) && files.contains (path l))
+      = ls.any (fun l => files.contains (path l)) := by
+    congr 1; funext l; cases files.contains (path l) <;> simp
+  rw [e]
+  generalize (ls.any fun l => files.contains (path l) || !(x l == '?' && y l == '?')) = a
+  generalize (ls.any fun l => files.contains (path l)) = b
+  cases allowDirty <;> cases a <;> cases b <;> rfl
 end BV
